@@ -236,12 +236,31 @@ func (e *Engine) registerFSIntrinsics() {
 				return Tuple{Iface{T: r.eng.prog.ImportedPackage("io/fs").Type("FileInfo").Type(), V: &fileInfoObj{dir: false}}, Iface{}}
 			}
 		}
+		if f := r.eng.prog.ImportedPackage("github.com/ddddddO/gtree").Func("vfsLstat"); f != nil {
+			switch k := r.concreteInt(r.callFunc(fr, f, []Value{a[0]}, nil), "vfsLstat"); k {
+			case 0:
+				return Tuple{Iface{}, notExist(r)}
+			case 3:
+				return Tuple{Iface{}, refused(r)}
+			default:
+				return Tuple{Iface{T: r.eng.prog.ImportedPackage("io/fs").Type("FileInfo").Type(), V: &fileInfoObj{dir: k == 1}}, Iface{}}
+			}
+		}
 		return in["os.Stat"](r, fr, a)
 	}
 	in["os.IsNotExist"] = func(r *Run, fr *frame, a []Value) Value {
 		return r.equal(nil, a[0], notExist(r))
 	}
 	in["os.MkdirAll"] = func(r *Run, fr *frame, a []Value) Value {
+		if f := r.eng.prog.ImportedPackage("github.com/ddddddO/gtree").Func("vfsMkdirAllK"); f != nil {
+			switch r.concreteInt(r.callFunc(fr, f, []Value{a[0]}, nil), "vfsMkdirAllK") {
+			case 0:
+				return Iface{}
+			case 2:
+				return *r.global(r.eng.prog.ImportedPackage("io/fs").Var("ErrExist"))
+			}
+			return refused(r)
+		}
 		if callH(r, fr, "vfsMkdirAll", a[0]).(BoolV).C {
 			return Iface{}
 		}
